@@ -198,12 +198,16 @@ def run(chk):
             if any(f[1][0] == 'Raw' for f in ra['fields']):
                 continue
             ca = conns.get(ra['p']) or conns.setdefault(ra['p'], conn.Connection('localhost', 25565, allowed_versions={ra['p']}))
+            cb_ = conns.get(rb['p']) or conns.setdefault(rb['p'], conn.Connection('localhost', 25565, allowed_versions={rb['p']}))
+            # a relay holds both connections at once: A's reactor exists first, B's is made afterwards, A's decodes
+            rea = reactors[st](ca)
+            reb = reactors[st](cb_)      # noqa  (kept alive)
             s1, s2 = _socket.socketpair()
             try:
                 pa = bytes(a['payload'])
                 s1.sendall(bytes(core.limbs(len(pa)) and [d | 0x80 for d in core.limbs(len(pa))[:-1]] + [core.limbs(len(pa))[-1]] or [0]) + pa)
                 fo = s2.makefile('rb', 0)
-                got_pkt = reactors[st](ca).read_packet(fo, timeout=2)
+                got_pkt = rea.read_packet(fo, timeout=2)
                 fo.close()
             except Exception as e:      # noqa
                 got_pkt = e
